@@ -565,6 +565,19 @@ func genHistory(seed uint64, i int) Case {
 		g.answerAll(false, false)
 		c.Steps = g.steps
 		return c
+	case 13: // a caller gives up; later calls; the peer then answers the abandoned call, late, and the others
+		c.Stream = "ctx"
+		g.calls(1, "hello")
+		a := g.takePending(0)
+		g.answered = g.answered[:len(g.answered)-1]
+		g.steps = append(g.steps, Step{Op: "cancel", K: a})
+		g.calls(1, "hello")
+		g.calls(1, "hello")
+		g.calls(1, "read")
+		g.frames([]FrameSpec{g.good(a)})
+		g.answerAll(false, false)
+		c.Steps = g.steps
+		return c
 	case 11, 12: // calls queued behind the shutdown request; the peer answers the shutdown (11) or goes away (12)
 		c.Stream = "behind"
 		g.calls(2, "hello")
